@@ -22,6 +22,7 @@ origin = {"1": "fresh sub-agent given only the property text and a private workt
           "8": "fresh sub-agent given only the property text and a private worktree; round 8: asked for a change in glue or shared code (utils helpers, Config, Model wiring, kernel factories, the Simulation wrapper, MultiHostPool forwarding, a base class, a rarely used overload) or one that spans two places that each look harmless alone, needing something specific to manifest",
           "9": "fresh sub-agent given only the property text and a private worktree; round 9: same request as round 8 (glue or shared code, or two places that each look harmless alone) for the other ten properties",
           "10": "fresh sub-agent given only the property text and a private worktree; round 10: asked for a defect that comes from the interaction of two features or calls (state left behind by an earlier call or step, a second object sharing something with the first, an option that changes what another option means, an alternative public entry point)",
+          "11": "fresh sub-agent given only the property text and a private worktree; round 11: asked for two cooperating sites that each look fine alone (a helper changed in one header and a caller relying on the old behaviour in another) or a multi-step sequence of operations in a rarely combined configuration, at a site none of the earlier ideas touched",
           "2b": "fresh sub-agent given only the property text and a private worktree; second batch of round 2: asked for a change away from the obvious function whose effect needs two or more circumstances to coincide"}[rnd]
 meta = {"property": sid[:3], "round": int(rnd) if rnd.isdigit() else int(rnd[0]), "origin": origin, "what": what, "needs_to_manifest": needs,
         "confirmed": {"applies_to": "/repo HEAD", "test_suite_with_patch": suite,
